@@ -323,7 +323,21 @@ class Evaluator:
         return [(UNIT, st.fork(exit=("continue",)))]
 
     def ev_loop(self, n, st, fp):
-        return [(("opaque", "loop", 0), st.note("loop at %s" % n.get("line")).effect(("loop", n.get("line"))))]
+        """loops are not unrolled: variables assigned in the body become fresh symbols and the loop
+        is recorded as an effect (callers that care evaluate the body separately)"""
+        from facts import walk
+        owner = self.owner_of(fp)
+        for x in walk(n["body"]):
+            if x.get("k") in ("assign", "assignop"):
+                l = strip_node(x["l"])
+                while l.get("k") in ("field", "index", "deref"):
+                    l = strip_node(l["e"])
+                if l.get("k") in ("var", "upvar"):
+                    key = (owner, l["id"])
+                    cur = st.env.get(key)
+                    w = _w(cur) if isinstance(cur, tuple) and cur else self.bits(l.get("ty"))
+                    st = st.set(key, T.V(l["name"] + "'", w) if w else ("obj", l["name"] + "'", l.get("ty")))
+        return [(UNIT, st.effect(("loop", n.get("line"))))]
 
     # ---------------------------------------------------------------- conditions
     def ev_cond(self, n, st, fp):
@@ -543,6 +557,10 @@ class Evaluator:
             for v, s in self.ev(n["e"], st, fp):
                 if isinstance(v, tuple) and v and v[0] == "ref":
                     out.append((v[1], s))
+                elif isinstance(v, tuple) and v and v[0] in ("struct", "obj", "array", "upd", "updf", "clo", "fnitem", "lit"):
+                    # shared references are transparent: the "pointer" is the value itself
+                    key = ("tmp", self.fresh())
+                    out.append((("pv", key), s.set(key, v)))
                 else:
                     out.append((("pd", v, n["ty"]), s))
             return out
@@ -976,11 +994,9 @@ def m_int(ev, vals, n, s, path, gens):
 @model("ebpf::get_insn")
 def m_get_insn(ev, vals, n, s, path, gens):
     idx = vals[1]
-    tag = T.show(idx) if _w(idx) else "?"
     prog = vals[0]
-    pname = prog[1] if isinstance(prog, tuple) and prog and prog[0] == "obj" else "prog"
     flds = [("opc", 8), ("dst", 8), ("src", 8), ("off", 16), ("imm", 32)]
-    return [(struct("ebpf::Insn", "Insn", [(f, T.V("insn[%s].%s" % (tag, f), w)) for f, w in flds]),
+    return [(struct("ebpf::Insn", "Insn", [(f, ("v", ("insn", idx, f), w)) for f, w in flds]),
              s.effect(("get_insn", prog, idx)))]
 
 
